@@ -254,6 +254,17 @@ CLAIMED.update({
     ),
 })
 
+CLAIMED.update({
+    'C25': (
+        'proxy symbolic execution (bvx/z3) of ExecutionContext counter handling and OperationGroup.fill/autofill/sign/inject/send over solver-chosen call histories against a simulated node',
+        'Bounded symbolic model checking over histories: every step of the history (prepare by fill/autofill/send, autofill again, inject ok/refused, bake, operations entering the mempool) is chosen by '
+        'the solver, the account counter is a symbolic integer, the simulated node and its mempool evolve with the injections; at every injection the counters of the group must be node counter + own '
+        'pending contents + 1, +2, ...; known finding: preparing a new group while an earlier preparation was never handed to inject().',
+        'Histories of 1..4 steps (quick) / 1..6 (thorough); groups of transactions; the group injected is the most recently prepared one.',
+        'DESIGN.md C25',
+    ),
+})
+
 NOT_APPLICABLE = {
     'C18': 'Parser is a PLY regex lexer + LALR tables + json; every input is concrete before the code under test runs, '
            'so a solver has nothing to decide (CrossHair regex model also unsound here). See DESIGN.md section 6.',
